@@ -23,11 +23,12 @@ CFG = dict(
                    ("observed:change:nexthop-validity", 5000), ("observed:change:remove", 2000), ("observed:change:drop", 1500),
                    ("state:has-aspath-over-255", 3000), ("ecmp:expected-run>=2", 2000), ("fam:evpn-type2", 40000),
                    ("state:mixed-eligible-ineligible", 60000), ("profile:debug", 1), ("profile:release", 1)])),
-    quick=[e1("all", "c02", "debug", 2, 40), e1("all", "c02", "release", 2, 40)],
+    # release shards get their own seeds (seed_offset) so the two profiles do not replay identical inputs
+    quick=[e1("all", "c02", "debug", 2, 40), dict(e1("all", "c02", "release", 2, 40), seed_offset=500)],
     thorough=[e1("matrix", "c02", "debug", 2, 200, part="matrix"),
-              e1("matrix", "c02", "release", 2, 200, part="matrix"),
+              dict(e1("matrix", "c02", "release", 2, 200, part="matrix"), seed_offset=500),
               e1("perm", "c02", "debug", 2, 200, part="perm"),
-              e1("perm", "c02", "release", 4, 200, part="perm"),
+              dict(e1("perm", "c02", "release", 4, 200, part="perm"), seed_offset=500),
               e1("hist", "c02", "debug", 3, 200, part="history"),
-              e1("hist", "c02", "release", 3, 200, part="history")],
+              dict(e1("hist", "c02", "release", 3, 200, part="history"), seed_offset=500)],
 )
